@@ -176,6 +176,18 @@ func (P *Program) ContractFor(fn *ssa.Function) *FuncContract {
 	return nil
 }
 
+// ContractForAt: a contract written for one call site (extern <callee>@<caller>) takes precedence there; its clauses
+// may refer to the caller's parameters as caller.<name>.
+func (P *Program) ContractForAt(fn, caller *ssa.Function) (*FuncContract, bool) {
+	if fn != nil && caller != nil && caller.Pkg != nil {
+		k := fn.String() + "@" + caller.Pkg.Pkg.Name() + "." + caller.RelString(caller.Pkg.Pkg)
+		if c, ok := P.CS.Externs[k]; ok {
+			return c, true
+		}
+	}
+	return P.ContractFor(fn), false
+}
+
 func (P *Program) pos(p token.Pos) string {
 	if !p.IsValid() || P.Fset == nil {
 		return ""
